@@ -63,7 +63,9 @@ ASSUMPTIONS = [
     'never created a yatiml function is a fresh interpreter for the purpose '
     'of the baseline (fork happens before any thread is started)',
     'outcomes are compared as structural value digests, dumped text, or '
-    'exception class; message texts are not compared',
+    'exception class; of the message text of a RecognitionError the cited '
+    'positions and the quoted key names (in order) are compared, nothing '
+    'else',
     'CPython serialises bytecodes (GIL): only interleavings at bytecode/line '
     'granularity exist and only those are explored',
 ]
@@ -82,6 +84,7 @@ def requirements(tier):
             'aborted_json_dumps': 300 if q else 4000,
             'baseline_calls': 5000 if q else 60000,
             'partial_registration_calls': 2000 if q else 26000,
+            'self_nesting_class_calls': 2000 if q else 26000,
             'full_registration_calls_of_partially_used_classes':
                 500 if q else 6500,
             'thread_overlapping_calls': 2000 if q else 26666,
@@ -153,9 +156,24 @@ def perform(fn, kind, pyarg, opts):
         return ['err', 'RecursionError']
     except Exception as e:       # noqa
         if kind == 'load':
-            return H.outcome_digest('err', e)
+            d = H.outcome_digest('err', e)
+            if isinstance(e, yatiml.RecognitionError):
+                # where the error points and which keys it names, in the
+                # order it names them: a function of the call alone (type
+                # descriptions are left out: ambiguity messages list classes
+                # in the order of a set)
+                msg = str(e)
+                d = d + [sorted(set(_POS.findall(msg))),
+                         [] if 'Could not determine which' in msg
+                         else _QUOTED.findall(msg)[:40]]
+            return d
         return ['err', type(e).__name__]
     raise ValueError(kind)
+
+
+import re as _re
+_POS = _re.compile(r'line (\d+), column (\d+)')
+_QUOTED = _re.compile(r'"([^"\n]{0,60})"')
 
 
 # ---------------------------------------------------------------------------
@@ -460,6 +478,20 @@ def build_pool(ctx, rng, n):
                        {'name': 'skid_id', 'type': 'int'}],
             'savorize': [['add_int', 'skid_id', 10]],
             'sweeten': [['add_int', 'skid_id', -10]]})
+        # a class that holds objects of its own class: its constructor is
+        # entered again before the outer object's checks have run
+        # (through its base: every such mapping is read as the derived
+        # class, whose own parameter is optional)
+        spec['classes'].append({
+            'name': 'NestB', 'kind': 'plain',
+            'params': [{'name': 'nid', 'type': 'int'},
+                       {'name': 'label', 'type': 'str', 'default': 'l'}]})
+        spec['classes'].append({
+            'name': 'Nest', 'kind': 'plain', 'bases': ['NestB'],
+            'params': [{'name': 'nid', 'type': 'int'},
+                       {'name': 'label', 'type': 'str', 'default': 'l'},
+                       {'name': 'kids', 'type': ['opt', ['list', [
+                           'cls', 'NestB']]], 'default': None}]})
         try:
             H.model_of(spec)
         except Exception:
@@ -467,6 +499,32 @@ def build_pool(ctx, rng, n):
             continue
         specs.append(H.clean_spec(spec))
     return specs
+
+
+def nest_items(rng, out):
+    """Invalid documents of the self-nesting class whose defect sits in the
+    outer mapping (reported after the inner objects were built), and the
+    same keys in other orders (what an error says about one document must
+    not depend on the documents seen before)."""
+    n = rng.randint(1, 9)
+    lines = [['nid: %d' % n, 'kids:\n- {nid: %d}\n- nid: %d\n  label: k' % (
+        n + 1, n + 2), 'zz_unknown: 5', 'label: top'],
+        ['kids: [{nid: %d, kids: [{nid: %d}]}]' % (n, n + 1), 'qq_other: 1',
+         'label: x'],
+        ['nid: %d' % n, 'kids: [{nid: 1}, {nid: 2, zz_inner: 3}]',
+         'label: y']]
+    for ls in lines:
+        for _ in range(2):
+            order = ls[:]
+            rng.shuffle(order)
+            out.append(('load', ['cls', 'Nest'], '\n'.join(order) + '\n', {},
+                        'nested-invalid'))
+        out.append(('load', ['list', ['cls', 'Nest']],
+                    '- ' + '\n  '.join('\n'.join(ls).split('\n')) + '\n',
+                    {}, 'nested-invalid'))
+    out.append(('load', ['cls', 'Nest'],
+                'nid: %d\nkids:\n- {nid: 2, kids: [{nid: 3}]}\n' % n, {},
+                'nested-valid'))
 
 
 def partial_items(ctx, rng, spec, m, out):
@@ -499,7 +557,7 @@ def partial_items(ctx, rng, spec, m, out):
     top = dt[1] if isinstance(dt, list) and dt[0] == 'cls' else None
     names = [c['name'] for c in spec['classes'] if c.get('registered', True)
              and c['name'] != top and c['name'] not in (
-                 'SBase', 'SKid', 'AnyScalar')]
+                 'SBase', 'SKid', 'AnyScalar', 'Nest', 'NestB')]
     if not names:
         return
     drop = sorted(rng.sample(names, min(len(names), rng.randint(1, 2))))
@@ -637,6 +695,7 @@ def arg_pool(ctx, rng, specs, i):
             [1, {'a': [2, 'x']}, []])}, {'indent': rng.choice([None, 0, 3])},
             'value'))
     partial_items(ctx, rng, spec, m, out)
+    nest_items(rng, out)
     return out
 
 
@@ -686,6 +745,8 @@ class History:
             ctx.count('foreign_class_dumps')
         if label in ('aliased', 'failing-sink'):
             ctx.count('aborted_json_dumps')
+        if label.startswith('nested-'):
+            ctx.count('self_nesting_class_calls')
         if opts.get('unregistered'):
             ctx.count('partial_registration_calls')
         elif label.startswith('hooked-'):
@@ -750,10 +811,26 @@ def run_history(ctx, baseline, rng, hist_id, yield_inject=False):
     nthreads = rng.randint(4, 8)
     per = rng.randint(10, 25)
     plans = []
+    # in a third of the histories the threads concentrate on ONE model's
+    # documents of the self-nesting class (valid and invalid ones): many
+    # calls in flight inside the same constructors at the same time
+    focus = None
+    if rng.random() < 0.34:
+        fi = rng.randrange(len(specs))
+        fitems = [it for it in pools[fi] if it[4].startswith('nested-')]
+        if fitems:
+            focus = (fi, fitems)
+            ctx.count('histories_with_focused_thread_phase')
     for t in range(nthreads):
         plan = []
         for _ in range(per):
             i = rng.randrange(len(specs))
+            if focus and rng.random() < 0.85:
+                i = focus[0]
+                item = rng.choice(focus[1])
+                plan.append((i, item, h.fn_for(rng, i, item[0], item[1],
+                                               opts=item[3])))
+                continue
             if pools[i]:
                 item = rng.choice(pools[i])
                 # resolve the function up front: creation is not the racy part
